@@ -1,5 +1,5 @@
 """C14 - RawCopy reports the exact bytes processed; checksums built always verify."""
-import io, itertools, hashlib, zlib
+import io, os, itertools, hashlib, zlib
 from ..engine import UnitResult, jkey, watchdog, Hang
 from .. import terms as T
 from .c03 import sigma, S6
@@ -217,6 +217,33 @@ def check_checksum(shape_name, tier, r=None, only=None):
         dig = (o2, o2 + dl)
         if r is not None:
             r.case(key=("cs", shape_name, vi), outcome="verifies", validated=1)
+        # every entry point emits the same message and sees the same region (offsets shifted by the start position)
+        try:
+            st = io.BytesIO(b"\xdd" * 3); st.seek(3)
+            d.build_stream(v, st)
+            if st.getvalue() != b"\xdd" * 3 + msg:
+                out.append({"sig": sig + "/build_stream-at-offset-differs", "case": case0, "detail": "build_stream at offset 3 wrote %s, build() gives %s" % (st.getvalue()[3:].hex(), msg.hex())})
+            fn = os.path.join("/var/tmp", "verif-c14-%d.bin" % os.getpid())
+            try:
+                d.build_file(v, fn)
+                with open(fn, "rb") as f:
+                    onfile = f.read()
+                if onfile != msg:
+                    out.append({"sig": sig + "/build_file-differs", "case": case0, "detail": "build_file wrote %s, build() gives %s" % (onfile.hex(), msg.hex())})
+                pf = d.parse_file(fn)
+                if T.norm(pf) != T.norm(p):
+                    out.append({"sig": sig + "/parse_file-differs", "case": case0, "detail": "parse_file gives %r, parse %r" % (T.norm(pf), T.norm(p))})
+            finally:
+                if os.path.exists(fn):
+                    os.unlink(fn)
+            st = io.BytesIO(b"\xdd" * 3 + msg); st.seek(3)
+            p3 = d.parse_stream(st)
+            f3, f0 = p3["fields"], p["fields"]
+            if (f3["offset1"], f3["offset2"], f3["data"], p3["checksum"]) != (f0["offset1"] + 3, f0["offset2"] + 3, f0["data"], p["checksum"]):
+                out.append({"sig": sig + "/parse_stream-at-offset-differs", "case": case0,
+                            "detail": "parse_stream at offset 3: offsets %r..%r data %r; at offset 0: %r..%r data %r" % (f3["offset1"], f3["offset2"], f3["data"], f0["offset1"], f0["offset2"], f0["data"])})
+        except Exception as e:
+            out.append({"sig": sig + "/entry-point-raised-" + type(e).__name__, "case": case0, "detail": repr(e)})
         # corruptions
         bits = [i for i in range(o1 * 8, dig[1] * 8)]
         flips = [(b,) for b in bits]
